@@ -25,6 +25,7 @@ RULE = ("diagram plots: 1-3 diagrams of 0-30 points (at least one non-empty), wi
 ASSUMPTIONS = ["artists are read back from matplotlib on the Agg canvas: PathCollection offsets, Line2D data/style, limits, labels, legend",
                "single precision: 1e-6*scale; segments compared as unordered end-point pairs",
                "with xy_range the containment of points is not judged (statement lifts it); all-empty inputs are not plotted"]
+REQUIRED_NOTES = ["overlay-cases"]
 TECHNIQUE = "runtime monitoring: artist-inspection monitor on matplotlib figures (all axes of all open figures) after each plotting call"
 
 
@@ -320,7 +321,68 @@ def matching_case(ctx, k, rng):
     plt.close("all")
 
 
+def overlay_case(ctx, k, rng):
+    """two diagram plots on the SAME axes (two runs overlaid with their own labels): the second call finds artists of the first
+    one; what it adds must again be its own points, with its infinite deaths on an infinity line inside the final axes and
+    above every finite point it drew"""
+    s1 = float(rng.choice([0.1, 1, 1, 10])); s2 = s1 * float(rng.choice([0.1, 0.3, 1.0, 3.0, 10.0]))
+    ds = []
+    for s in (s1, s2):
+        D = gen.diagram(rng, int(rng.integers(2, 12)), str(rng.choice(["float", "grid", "cluster"])), s, allow_diag=True)
+        D = gen.insert_inf_rows(rng, D, int(rng.integers(1, 3)))
+        D[np.isinf(D[:, 1]), 0] *= s
+        ds.append(D)
+    lt1, lt2 = bool(rng.random() < 0.3), bool(rng.random() < 0.3)
+    ctx.begin(k, "overlay", {"first": ds[0], "second": ds[1], "lifetime": [lt1, lt2]})
+    ctx.note("overlay-cases")
+    plt.close("all")
+    fig, target, other = two_axes(True)
+    try:
+        ctx.ran(2)
+        P.plot_diagrams(ds[0], ax=target, lifetime=lt1, labels="run 1")
+        before_c, before_l = list(target.collections), list(target.lines)
+        P.plot_diagrams(ds[1], ax=target, lifetime=lt2, labels="run 2")
+    except Exception as e:
+        ctx.exception("diagram plot returns", e)
+        plt.close("all")
+        return
+    D = ds[1]
+    new_c = [c for c in target.collections if c not in before_c]
+    yl = target.get_ylim()
+    tol = 2e-6 * max(scale_of(D), 1e-300)
+    ok, why, inf_ok, inf_y = len(new_c) == 1, None, True, None
+    if ok:
+        off = np.asarray(new_c[0].get_offsets(), float).reshape(-1, 2)
+        exp = np.asarray(D, np.float32).astype(float)
+        if lt2:
+            exp = np.column_stack([exp[:, 0], (np.asarray(D, np.float32)[:, 1] - np.asarray(D, np.float32)[:, 0]).astype(float)])
+        infm = np.isinf(D[:, 1])
+        if off.shape != exp.shape:
+            ok, why = False, "collection has %d points, diagram has %d" % (len(off), len(exp))
+        elif np.max(np.abs(off[~infm] - exp[~infm])) > tol or np.max(np.abs(off[infm, 0] - exp[infm, 0])) > tol:
+            ok, why = False, "points differ"
+        else:
+            ys = off[infm, 1]
+            inf_y = float(ys[0])
+            top_finite = float(np.max(off[~infm, 1]))
+            inf_ok = bool(np.all(np.abs(ys - inf_y) <= tol)) and min(yl) < inf_y < max(yl) and inf_y >= top_finite - tol and any(
+                l.get_linestyle() == "--" and len(l.get_ydata()) == 2 and abs(l.get_ydata()[0] - inf_y) <= tol and abs(l.get_ydata()[1] - inf_y) <= tol
+                for l in target.lines)
+    else:
+        why = "expected 1 new collection, found %d" % len(new_c)
+    ctx.check("diagram plot: one scatter collection per plotted diagram with its points (single precision)", ok, reason=why, overlay=True)
+    if ok:
+        ctx.check("diagram plot: infinite deaths on one dashed line strictly inside the axes", inf_ok, inf_line_y=inf_y, ylim=yl, overlay=True,
+                  top_finite=float(np.max(off[~infm, 1])))
+    dirty = other_axes_clean(target)
+    ctx.check("diagram plot: nothing drawn on any other axes", not dirty, found=dirty[:2])
+    ctx.mark_nontrivial(ds, lt1, lt2)
+    plt.close("all")
+
+
 def run_case(ctx, k, rng):
+    if k % 13 == 4:
+        return overlay_case(ctx, k, rng)
     if rng.random() < 0.5:
         diagram_case(ctx, k, rng)
     else:
